@@ -251,6 +251,9 @@ PStepV(s, cur) ==
                                          \cup PFail("ph_projection", Len(s.fixed) = Len(cols) /\ WellFormed(s.new.rows, s.new.cols)
                                                           /\ ProjOK(rows, cols, cv, s.new.rows, s.new.cols))
                                          \cup PFail("ph_labels", Len(s.rflags) = Len(rows) /\ s.new.index = ReduceRows(cur.index, rf))
+            [] s.call = "assign_lo" -> PFail("ph_reduce_cols_fn", LET n == ReduceCols(rows, cols, [ j \in DOMAIN cols |-> [fixed |-> TRUE, val |-> cols[j].lo] ]) IN
+                                                          s.new.rows = n.rows /\ s.new.cols = n.cols /\ s.new.index = cur.index)
+            [] s.call = "drop_none" -> PFail("ph_reduce_rows_fn", SameP(s.new, cur))
             [] s.call = "edit" -> PFail("ph_edit_seen", SameP(s.after, EditP(cur)))
             [] s.call = "widen" -> PFail("ph_edit_seen", SameP(s.after, WidenP(cur)))
             [] OTHER -> {})
